@@ -193,7 +193,10 @@ def key(s):
             except Exception:
                 pass
         files.append((k_, v))
-    return (s.x, tuple(sorted(s.committed.items())), tuple(files))
+    import dds._api as api
+    from ..seqmc.models import canon
+    hidden = canon({k_: v for k_, v in vars(api._store_var).items() if k_ not in ("_dbutils", "_registry")}) if api._store_var is not None else None
+    return (s.x, tuple(sorted(s.committed.items())), tuple(files), hidden)
 
 
 ALPHA = [("keep", "a"), ("keep", "b"), ("eval",), ("set", 0), ("set", 1), ("load", "/p/a"), ("load", "/q/y/z"), ("load", "/p/b"), ("load", "/q/x")]
@@ -261,9 +264,68 @@ def check_legacy(i):
     return probs
 
 
+# ------------------------------------------------------------------ one failing dbutils call, then a retry
+
+class FailOnce:
+    """fs proxy: the i-th call raises once (a transient service error); everything else goes through"""
+
+    def __init__(self, fs, at):
+        self._fs, self._at, self.n, self.fired = fs, at, 0, None
+
+    def __getattr__(self, name):
+        real = getattr(self._fs, name)
+        if name not in ("cp", "head", "put", "rm"):
+            return real
+
+        def w(*a, **k):
+            i = self.n
+            self.n += 1
+            if i == self._at and name != "head":   # a failing head is indistinguishable from "absent": not a fault
+                self.fired = (name,) + tuple(str(x)[:60] for x in a[:2])
+                raise Exception("java.io.IOException: transient failure")
+            return real(*a, **k)
+        return w
+
+
+def check_fault(ct, target, at):
+    """keep/eval with the at-th dbutils call failing once; then the same call again must succeed with correct results."""
+    import dds
+    s = build(ct)
+    probs = []
+    try:
+        if s.open_result[0] != "ok":
+            return probs, None
+        proxy = FailOnce(s.db.fs, at)
+        s.db.fs = proxy
+        op = {"a": ("keep", "a"), "b": ("keep", "b"), "eval": ("eval",)}[target]
+        first = apply_raw(s, op)
+        fired = proxy.fired
+        proxy._at = -1
+        if fired is None:
+            return probs, None
+        s.db.fs = proxy._fs
+        pr = apply(s, op)          # retry: model and data-directory oracle as usual
+        for k, w in pr:
+            probs.append((k.replace("C19|", f"C19|after_fault@{fired[0]}|", 1), f"after a failed {fired} during {op} ({first[0]}): {w}"))
+        for lp in [("load", "/p/a"), ("load", "/p/b"), ("load", "/q/x"), ("load", "/q/y/z")]:
+            for k, w in apply(s, lp):
+                probs.append((k.replace("C19|", f"C19|after_fault@{fired[0]}|", 1), f"after a failed {fired} during {op} and a retry: {w}"))
+        return probs, fired
+    finally:
+        teardown(s)
+
+
+def apply_raw(s, op):
+    import dds
+    if op[0] == "keep":
+        fn, path = {"a": ("fa", "/p/a"), "b": ("fb", "/p/b")}[op[1]]
+        return call(lambda: dds.keep(path, getattr(s.mod, fn)))
+    return call(lambda: dds.eval(s.mod.root))
+
+
 def run(tier, seed):
     res = Result(P, "model_checking")
-    depth = 4 if tier == "quick" else 6
+    depth = 5 if tier == "quick" else 7
     outs = pool.pmap(_job, [(ct, depth if ct in (None, "full", "links_only", "none") else 2) for ct in SPELLINGS], chunk=1)
     states = trans = 0
     per = []
@@ -277,8 +339,21 @@ def run(tier, seed):
     for i in range(n_leg):
         for k, w in check_legacy(i):
             res.violations.append(Violation(P, k, w, {"mode": "legacy", "i": i}))
+    n_fault = 0
+    for ct in ("full", "links_only", "none"):
+        for target in ("a", "b", "eval"):
+            at = 0
+            while at < 60:
+                pr, fired = check_fault(ct, target, at)
+                if fired is None and at > 0 and check_fault(ct, target, at + 1)[1] is None:
+                    break
+                n_fault += 1
+                for k, w in pr:
+                    res.violations.append(Violation(P, k, w, {"mode": "fault", "ct": ct, "target": target, "at": at}))
+                at += 1
     res.violations.sort(key=lambda v: len(v.replay.get("ops", [])))
-    res.coverage = dict(states=states, transitions=trans + n_leg, traces_validated_against_impl=trans + n_leg, per_commit_type=per,
+    trans += n_fault
+    res.coverage = dict(fault_points=n_fault, states=states, transitions=trans + n_leg, traces_validated_against_impl=trans + n_leg, per_commit_type=per,
                         legacy_cases=n_leg, exhaustive=False,
                         rule="per commit-type spelling: BFS over {keep str result, keep bytes result, eval with two nested keeps (one pickled, "
                              "3-segment path), edit tracked variable, load of 4 paths}; state = (variable, committed map, all files of the fake); "
@@ -292,6 +367,8 @@ def run(tier, seed):
 def replay(case):
     core.ensure_repo_dds()
     time.time = lambda: 1.6e9
+    if case["mode"] == "fault":
+        return [Violation(P, k, w, case) for k, w in check_fault(case["ct"], case["target"], case["at"])[0]]
     if case["mode"] == "legacy":
         return [Violation(P, k, w, case) for k, w in check_legacy(case["i"])]
     s = build(case["ct"])
